@@ -452,3 +452,18 @@ _upd('C13',
      'block names cannot collide, generate_pairwise_xor\'s labels are distinct by injectivity of the decimal representation). Compared with '
      'the code on random operand pairs (incl. operands with blocks, shared labels, single outputs) on every run.',
      '"Leaves both operands unmodified": correspondence only (Lean values cannot alias); the harness compares the operands before and after.')
+_upd('C17',
+     'Theorems (every table, any number of outputs and rows; every circuit): normalisation followed by denormalisation is the identity on the '
+     'outputs\' truth tables (negation, stable sort, duplicate removal and their inverses); normalised outputs start with False; the recorded '
+     'permutation is one; denormalize(circuit) leaves the inputs alone, keeps the circuit well formed and puts the denormalised values on the '
+     'outputs (fresh or reused not_<o> gates), so an entry whose stored circuit computes the normalised table yields a circuit computing the '
+     'requested table, every output in the requested order (c17_lookup_entry_correct). Lookup with don\'t-cares, for every pattern of '
+     'don\'t-cares and any lookup of full tables: the tables looked up are exactly the full tables of the model\'s shape agreeing with its '
+     'defined entries (c17_dontcare_completions_exact); the circuit returned is the stored circuit of one of them, none of them has a smaller '
+     'stored circuit, and nothing is returned only if none is stored (c17_dontcare_lookup, c17_dontcare_lookup_computes); the order of the '
+     'completions and the circuit chosen are compared with get_by_raw_truth_table_model on the shipped databases (correspondence streams '
+     'dc_completions, dc_choice). The finite quantifier over the 2 x 349,724 shipped entries (decode, well-formedness, basis, truth table = key) '
+     'is discharged by executing the code\'s and the Lean model\'s decoder + evaluator + checker over the entries (quick: all entries with '
+     '<= 2 inputs + seeded sample; thorough: all) and lookups are run on the real databases incl. don\'t-care patterns with all completions.',
+     'The sweep over the shipped entries is an execution, not a kernel proof (partial); that denormalize never raises on a matching entry is '
+     'correspondence/search only.')
